@@ -184,5 +184,59 @@ def ofString? (s : String) : Option Dec :=
     | _, _ => none
   | _ => none
 
+/-! ### Range assertions of cosmossdk.io/math v1.5.0 (additive; nothing above is changed)
+
+`legacy_dec.go`: `upperLimit = 2^256·10^18 − 1` (raw), `lowerLimit = −upperLimit`, and
+`assertInValidRange` panics with "Int overflow" when `raw > upperLimit ∨ raw < lowerLimit`, i.e. the valid raw values are
+exactly `−2^256·10^18 < raw < 2^256·10^18` (there is no bit-length constant in this version; older releases used
+`maxDecBitLen = 315`, which is a different, wider bound).  It is called at the end of AddMut, SubMut, MulMut, MulTruncateMut,
+MulRoundUpMut, MulIntMut, MulInt64Mut, QuoMut, QuoTruncateMut, QuoRoundupMut and Ceil — NOT by QuoInt(64)Mut, Neg, Abs,
+TruncateDec, nor by the constructors LegacyNewDec / LegacyNewDecFromInt / Int.ToLegacyDec.
+The older `Dec.inRange` above admits `raw = ±2^256·10^18` as well (one value each side more than the library). -/
+
+/-- exact `IsInValidRange`: `-(2^256·10^18) < raw < 2^256·10^18` -/
+def inRng (d : Dec) : Bool := decide (-RANGE < d.raw ∧ d.raw < RANGE)
+
+/-- PowerMut with the exact range assertion after every MulMut (`none` = Go panics with "Int overflow") -/
+def powerLoopR : Nat → Nat → Dec → Dec → Option (Dec × Dec)
+  | 0, _, d, tmp => some (d, tmp)
+  | fuel+1, i, d, tmp =>
+    if i > 1 then
+      if i % 2 != 0 then
+        let tmp' := mul tmp d
+        if !tmp'.inRng then none else
+        let d' := mul d d
+        if !d'.inRng then none else powerLoopR fuel (i / 2) d' tmp'
+      else
+        let d' := mul d d
+        if !d'.inRng then none else powerLoopR fuel (i / 2) d' tmp
+    else some (d, tmp)
+
+/-- `true` iff `d.Power(p)` passes every range assertion (`p` a Go uint64 carried as Int) -/
+def powerRng (d : Dec) (p : Int) : Bool :=
+  if p.toNat = 0 then true
+  else match powerLoopR 64 p.toNat d one with
+    | none => false
+    | some (d', tmp) => (mul d' tmp).inRng
+
 end Dec
+
+/- `math.Int`: `bigIntOverflows` ⇔ `BitLen() > 256`, i.e. valid ⇔ `|i| < 2^256`.  Add/Sub/Mul panic with
+`ErrIntOverflow` ("integer overflow"), `NewIntFromBigInt(Mut)` (behind `TruncateInt`/`RoundInt`) with
+"NewIntFromBigInt() out of bound".  Quo, Neg, Abs, MinInt, MaxInt, NewInt do not assert. -/
+namespace Int256
+def LIMIT : Int := 115792089237316195423570985008687907853269984665640564039457584007913129639936
+def inRange (i : Int) : Bool := decide (-LIMIT < i ∧ i < LIMIT)
+end Int256
+
+/- `Int.Int64()`, `LegacyDec.TruncateInt64()/RoundInt64()`: panic "Int64() out of bound" unless `big.Int.IsInt64` -/
+namespace I64
+def inRange (i : Int) : Bool := decide (-9223372036854775808 ≤ i ∧ i ≤ 9223372036854775807)
+end I64
+
+/- `Int.Uint64()`: panic "Uint64() out of bounds" unless `big.Int.IsUint64` -/
+namespace U64
+def inRange (i : Int) : Bool := decide (0 ≤ i ∧ i ≤ 18446744073709551615)
+end U64
+
 end Sunrise
